@@ -1,6 +1,8 @@
 import Grexv.Props.C09
 import Grexv.Props.C10
 
+import Grexv.Lemmas.Lex
+
 /-!
 # C01 — soundness: the generated regex matches every test case (stage lemmas)
 
@@ -73,5 +75,18 @@ theorem clusters_cover (cfg : Config) (env : Env) (ws : List Str) (w : Str) (h :
     clusterOfPieces (env.segOf w) ∈ graphemeClusters cfg env (sortCases ws) := by
   simp only [graphemeClusters, hcf, hrep, Bool.false_eq_true, ite_false, List.mem_map]
   exact ⟨w, s1_keeps_every_test_case ws w h, rfl⟩
+
+/-- **literal level (literals)** for every code point, what the literal printer writes is read back by the
+parser as that code point (generated `CHARS_TO_ESCAPE`) -/
+theorem literal_lexes (c : Nat) : Lex.parsesAsChar (escapeSymbols [c]) c = true := Lex.literal_lexes c
+
+/-- **literal level (class members)** every ASCII member of a character class, in first or in later position, is
+written (generated `chars_to_escape` of `format_character_class`) so that the parser reads exactly
+that member: `^` cannot negate, `]` cannot close, `-` cannot form a range, `\` cannot escape -/
+theorem class_member_lexes (c : Nat) (h : c < 128) :
+    Lex.parsesAsClass (escapeClassChar c) [.range c c] = true ∧
+    Lex.parsesAsClass (97 :: escapeClassChar c) [.range 97 97, .range c c] = true :=
+  ⟨List.all_eq_true.mp Lex.class_member_ascii_first c (List.mem_range.mpr h),
+   List.all_eq_true.mp Lex.class_member_ascii_later c (List.mem_range.mpr h)⟩
 
 end Grexv.Props.C01
